@@ -211,7 +211,7 @@ func runC06(c *Ctx) {
 		f := bi.f
 		sum := "(Conn.bytesReceived + " + bi.sizeDesc + ")"
 		for _, site := range s.Find(f, "copy-to:Conn.bdatPipe") {
-			c.obUnreach("chunk to pipe", site, `Server.MaxMessageBytes != 0`, sum+` > Server.MaxMessageBytes`)
+			c.obUnreach("chunk to pipe", site, `Server.MaxMessageBytes > 0`, sum+` > Server.MaxMessageBytes`)
 			c.obUnreach("chunk to pipe", site, `Server.MaxMessageBytes > 0`, sum+` > Server.MaxMessageBytes`)
 		}
 		n552 := s.Find(f, "reply:552")
